@@ -217,6 +217,10 @@ def make_root(name):
     return pg.Dict(a=inner, b=fixtures.SealedByDefault(x=1))
   if name == 'unsealed_root':
     return fixtures.SealedByDefault(x=pg.Dict(q=0), items=[1]).seal(False)
+  if name == 'sealed_by_default':
+    return fixtures.SealedByDefault(x=pg.Dict(q=pg.List([0])), items=[pg.Dict(r=1), 2])
+  if name == 'clone_of_sealed':
+    return N(x=N(x=pg.Dict(a=1)), items=[{'k': 0}], sealed=True).clone(deep=True)
   if name == 'none':
     return None
   raise ValueError(name)
